@@ -41,3 +41,829 @@ impl Drop for Sandbox {
         let _ = std::fs::remove_dir_all(&self.path);
     }
 }
+
+// =============================================================================================
+// Call alphabet, executor generic over VirtualFileSystem, results, normal-form trees
+// =============================================================================================
+use std::{
+    collections::{BTreeMap, BTreeSet},
+    io::{Read, Write},
+    path::{Path, PathBuf},
+};
+
+use rivia::prelude::*;
+
+use crate::infra::{catch, J};
+
+#[derive(Clone, Debug, PartialEq, Eq, Hash, PartialOrd, Ord)]
+pub enum CopyMode {
+    None,
+    All(u32),
+    Dirs(u32),
+    Files(u32),
+}
+#[derive(Clone, Debug, PartialEq, Eq, Hash, PartialOrd, Ord)]
+pub struct ChmodO {
+    pub all: Option<u32>,
+    pub dirs: Option<u32>,
+    pub files: Option<u32>,
+    pub sym: Option<String>,
+    pub recurse: Option<bool>,
+    pub follow: bool,
+}
+#[derive(Clone, Debug, PartialEq, Eq, Hash, PartialOrd, Ord)]
+pub struct ChownO {
+    pub uid: Option<u32>,
+    pub gid: Option<u32>,
+    pub recurse: Option<bool>,
+    pub follow: bool,
+}
+
+#[derive(Clone, Debug, PartialEq, Eq, Hash, PartialOrd, Ord)]
+pub enum Op {
+    MkdirP(String),
+    MkdirM(String, u32),
+    Mkfile(String),
+    MkfileM(String, u32),
+    WriteAll(String, Vec<u8>),
+    WriteLines(String, Vec<String>),
+    AppendAll(String, Vec<u8>),
+    AppendLine(String, String),
+    AppendLines(String, Vec<String>),
+    WriteH(String, Vec<u8>),  // write() handle: write_all + flush + drop
+    AppendH(String, Vec<u8>), // append() handle
+    ReadAll(String),
+    ReadLines(String),
+    ReadBytes(String), // read() handle, read_to_end
+    Remove(String),
+    RemoveAll(String),
+    MoveP(String, String),
+    Copy(String, String),
+    CopyB(String, String, CopyMode, bool),
+    Symlink(String, String),
+    Readlink(String),
+    ReadlinkAbs(String),
+    Chmod(String, u32),
+    ChmodB(String, ChmodO),
+    Chown(String, u32, u32),
+    ChownB(String, ChownO),
+    SetCwd(String),
+    Cwd,
+    Root,
+    Abs(String),
+    Exists(String),
+    IsDir(String),
+    IsFile(String),
+    IsSymlink(String),
+    IsSymlinkDir(String),
+    IsSymlinkFile(String),
+    IsExec(String),
+    IsReadonly(String),
+    Mode(String),
+    Owner(String),
+    Uid(String),
+    Gid(String),
+    Entry(String),
+    Paths(String),
+    Dirs(String),
+    Files(String),
+    AllPaths(String),
+    AllDirs(String),
+    AllFiles(String),
+    Entries(String), // default options, result as a sorted multiset of entry views
+}
+
+impl Op {
+    pub fn name(&self) -> &'static str {
+        use Op::*;
+        match self {
+            MkdirP(..) => "mkdir_p",
+            MkdirM(..) => "mkdir_m",
+            Mkfile(..) => "mkfile",
+            MkfileM(..) => "mkfile_m",
+            WriteAll(..) => "write_all",
+            WriteLines(..) => "write_lines",
+            AppendAll(..) => "append_all",
+            AppendLine(..) => "append_line",
+            AppendLines(..) => "append_lines",
+            WriteH(..) => "write",
+            AppendH(..) => "append",
+            ReadAll(..) => "read_all",
+            ReadLines(..) => "read_lines",
+            ReadBytes(..) => "read",
+            Remove(..) => "remove",
+            RemoveAll(..) => "remove_all",
+            MoveP(..) => "move_p",
+            Copy(..) => "copy",
+            CopyB(..) => "copy_b",
+            Symlink(..) => "symlink",
+            Readlink(..) => "readlink",
+            ReadlinkAbs(..) => "readlink_abs",
+            Chmod(..) => "chmod",
+            ChmodB(..) => "chmod_b",
+            Chown(..) => "chown",
+            ChownB(..) => "chown_b",
+            SetCwd(..) => "set_cwd",
+            Cwd => "cwd",
+            Root => "root",
+            Abs(..) => "abs",
+            Exists(..) => "exists",
+            IsDir(..) => "is_dir",
+            IsFile(..) => "is_file",
+            IsSymlink(..) => "is_symlink",
+            IsSymlinkDir(..) => "is_symlink_dir",
+            IsSymlinkFile(..) => "is_symlink_file",
+            IsExec(..) => "is_exec",
+            IsReadonly(..) => "is_readonly",
+            Mode(..) => "mode",
+            Owner(..) => "owner",
+            Uid(..) => "uid",
+            Gid(..) => "gid",
+            Entry(..) => "entry",
+            Paths(..) => "paths",
+            Dirs(..) => "dirs",
+            Files(..) => "files",
+            AllPaths(..) => "all_paths",
+            AllDirs(..) => "all_dirs",
+            AllFiles(..) => "all_files",
+            Entries(..) => "entries",
+        }
+    }
+    /// path arguments in order
+    pub fn paths(&self) -> Vec<&str> {
+        use Op::*;
+        match self {
+            MkdirP(p) | MkdirM(p, _) | Mkfile(p) | MkfileM(p, _) | WriteAll(p, _) | WriteLines(p, _) | AppendAll(p, _) | AppendLine(p, _) | AppendLines(p, _)
+            | WriteH(p, _) | AppendH(p, _) | ReadAll(p) | ReadLines(p) | ReadBytes(p) | Remove(p) | RemoveAll(p) | Readlink(p) | ReadlinkAbs(p) | Chmod(p, _)
+            | ChmodB(p, _) | Chown(p, _, _) | ChownB(p, _) | SetCwd(p) | Abs(p) | Exists(p) | IsDir(p) | IsFile(p) | IsSymlink(p) | IsSymlinkDir(p)
+            | IsSymlinkFile(p) | IsExec(p) | IsReadonly(p) | Mode(p) | Owner(p) | Uid(p) | Gid(p) | Entry(p) | Paths(p) | Dirs(p) | Files(p) | AllPaths(p)
+            | AllDirs(p) | AllFiles(p) | Entries(p) => vec![p],
+            MoveP(a, b) | Copy(a, b) | CopyB(a, b, _, _) | Symlink(a, b) => vec![a, b],
+            Cwd | Root => vec![],
+        }
+    }
+    pub fn with_paths(&self, ps: &[String]) -> Op {
+        use Op::*;
+        let p = || ps[0].clone();
+        match self {
+            MkdirP(_) => MkdirP(p()),
+            MkdirM(_, m) => MkdirM(p(), *m),
+            Mkfile(_) => Mkfile(p()),
+            MkfileM(_, m) => MkfileM(p(), *m),
+            WriteAll(_, d) => WriteAll(p(), d.clone()),
+            WriteLines(_, d) => WriteLines(p(), d.clone()),
+            AppendAll(_, d) => AppendAll(p(), d.clone()),
+            AppendLine(_, d) => AppendLine(p(), d.clone()),
+            AppendLines(_, d) => AppendLines(p(), d.clone()),
+            WriteH(_, d) => WriteH(p(), d.clone()),
+            AppendH(_, d) => AppendH(p(), d.clone()),
+            ReadAll(_) => ReadAll(p()),
+            ReadLines(_) => ReadLines(p()),
+            ReadBytes(_) => ReadBytes(p()),
+            Remove(_) => Remove(p()),
+            RemoveAll(_) => RemoveAll(p()),
+            MoveP(_, _) => MoveP(p(), ps[1].clone()),
+            Copy(_, _) => Copy(p(), ps[1].clone()),
+            CopyB(_, _, m, f) => CopyB(p(), ps[1].clone(), m.clone(), *f),
+            Symlink(_, _) => Symlink(p(), ps[1].clone()),
+            Readlink(_) => Readlink(p()),
+            ReadlinkAbs(_) => ReadlinkAbs(p()),
+            Chmod(_, m) => Chmod(p(), *m),
+            ChmodB(_, o) => ChmodB(p(), o.clone()),
+            Chown(_, u, g) => Chown(p(), *u, *g),
+            ChownB(_, o) => ChownB(p(), o.clone()),
+            SetCwd(_) => SetCwd(p()),
+            Cwd => Cwd,
+            Root => Root,
+            Abs(_) => Abs(p()),
+            Exists(_) => Exists(p()),
+            IsDir(_) => IsDir(p()),
+            IsFile(_) => IsFile(p()),
+            IsSymlink(_) => IsSymlink(p()),
+            IsSymlinkDir(_) => IsSymlinkDir(p()),
+            IsSymlinkFile(_) => IsSymlinkFile(p()),
+            IsExec(_) => IsExec(p()),
+            IsReadonly(_) => IsReadonly(p()),
+            Mode(_) => Mode(p()),
+            Owner(_) => Owner(p()),
+            Uid(_) => Uid(p()),
+            Gid(_) => Gid(p()),
+            Entry(_) => Entry(p()),
+            Paths(_) => Paths(p()),
+            Dirs(_) => Dirs(p()),
+            Files(_) => Files(p()),
+            AllPaths(_) => AllPaths(p()),
+            AllDirs(_) => AllDirs(p()),
+            AllFiles(_) => AllFiles(p()),
+            Entries(_) => Entries(p()),
+        }
+    }
+    pub fn is_query(&self) -> bool {
+        use Op::*;
+        matches!(
+            self,
+            ReadAll(_) | ReadLines(_) | ReadBytes(_) | Readlink(_) | ReadlinkAbs(_) | Cwd | Root | Abs(_) | Exists(_) | IsDir(_) | IsFile(_) | IsSymlink(_)
+                | IsSymlinkDir(_) | IsSymlinkFile(_) | IsExec(_) | IsReadonly(_) | Mode(_) | Owner(_) | Uid(_) | Gid(_) | Entry(_) | Paths(_) | Dirs(_) | Files(_)
+                | AllPaths(_) | AllDirs(_) | AllFiles(_) | Entries(_)
+        )
+    }
+    pub fn describe(&self) -> String {
+        let s = format!("{:?}", self);
+        if s.len() > 300 {
+            format!("{}…({} chars)", s.chars().take(300).collect::<String>(), s.len())
+        } else {
+            s
+        }
+    }
+}
+
+#[derive(Clone, Debug, PartialEq, Eq, PartialOrd, Ord)]
+pub struct EntryView {
+    pub path: String,
+    pub alt: String,
+    pub rel: String,
+    pub is_dir: bool,
+    pub is_file: bool,
+    pub is_symlink: bool,
+    pub is_symlink_dir: bool,
+    pub is_symlink_file: bool,
+    pub is_exec: bool,
+    pub is_readonly: bool,
+    pub following: bool,
+    pub mode: u32,
+    pub file_name: Option<String>,
+}
+pub fn ps(p: &Path) -> String {
+    p.to_str().unwrap_or("<non-utf8>").to_string()
+}
+pub fn entry_view<E: Entry>(e: &E) -> EntryView {
+    EntryView {
+        path: ps(e.path()),
+        alt: ps(e.alt()),
+        rel: ps(e.rel()),
+        is_dir: e.is_dir(),
+        is_file: e.is_file(),
+        is_symlink: e.is_symlink(),
+        is_symlink_dir: e.is_symlink_dir(),
+        is_symlink_file: e.is_symlink_file(),
+        is_exec: e.is_exec(),
+        is_readonly: e.is_readonly(),
+        following: e.following(),
+        mode: e.mode(),
+        file_name: e.file_name().map(|x| x.to_str().unwrap_or("?").to_string()),
+    }
+}
+
+#[derive(Clone, Debug, PartialEq)]
+pub enum Res {
+    Unit,
+    Path(String),
+    Bool(bool),
+    Text(String),
+    Bytes(Vec<u8>),
+    Lines(Vec<String>),
+    Paths(Vec<String>),
+    Num(u32),
+    Pair(u32, u32),
+    Entry(EntryView),
+    Items(Vec<EntryView>),
+    Err(String),
+    Panic(String),
+}
+impl Res {
+    pub fn is_err(&self) -> bool {
+        matches!(self, Res::Err(_))
+    }
+    pub fn class(&self) -> String {
+        match self {
+            Res::Err(k) => format!("Err({})", k),
+            Res::Panic(_) => "panic".into(),
+            _ => "Ok".into(),
+        }
+    }
+    pub fn short(&self) -> String {
+        let s = format!("{:?}", self);
+        if s.len() > 400 {
+            format!("{}…", s.chars().take(400).collect::<String>())
+        } else {
+            s
+        }
+    }
+}
+
+pub fn err_kind(e: &RvError) -> String {
+    match e {
+        RvError::Path(p) => {
+            let d = format!("{:?}", p);
+            d.split('(').next().unwrap_or("Path").to_string()
+        },
+        RvError::Io(io) => format!("Io:{:?}", io.kind()),
+        RvError::Vfs(v) => {
+            let d = format!("{:?}", v);
+            d.split('(').next().unwrap_or("Vfs").to_string()
+        },
+        RvError::Var(_) => "Var".into(),
+        RvError::Iter(_) => "Iter".into(),
+        RvError::Nix(n) => format!("Nix:{:?}", n),
+        RvError::Utf8(_) => "Utf8".into(),
+        other => {
+            let d = format!("{:?}", other);
+            d.split('(').next().unwrap_or("Other").to_string()
+        },
+    }
+}
+fn r_unit(r: RvResult<()>) -> Res {
+    match r {
+        Ok(()) => Res::Unit,
+        Err(e) => Res::Err(err_kind(&e)),
+    }
+}
+fn r_path(r: RvResult<PathBuf>) -> Res {
+    match r {
+        Ok(p) => Res::Path(ps(&p)),
+        Err(e) => Res::Err(err_kind(&e)),
+    }
+}
+fn r_paths(r: RvResult<Vec<PathBuf>>) -> Res {
+    match r {
+        Ok(v) => Res::Paths(v.iter().map(|p| ps(p)).collect()),
+        Err(e) => Res::Err(err_kind(&e)),
+    }
+}
+
+pub fn exec<V: VirtualFileSystem>(v: &V, op: &Op) -> Res {
+    match catch(|| exec_inner(v, op)) {
+        Ok(r) => r,
+        Err(m) => Res::Panic(m),
+    }
+}
+
+fn exec_inner<V: VirtualFileSystem>(v: &V, op: &Op) -> Res {
+    use Op::*;
+    match op {
+        MkdirP(p) => r_path(v.mkdir_p(p)),
+        MkdirM(p, m) => r_path(v.mkdir_m(p, *m)),
+        Mkfile(p) => r_path(v.mkfile(p)),
+        MkfileM(p, m) => r_path(v.mkfile_m(p, *m)),
+        WriteAll(p, d) => r_unit(v.write_all(p, d)),
+        WriteLines(p, l) => r_unit(v.write_lines(p, l)),
+        AppendAll(p, d) => r_unit(v.append_all(p, d)),
+        AppendLine(p, l) => r_unit(v.append_line(p, l)),
+        AppendLines(p, l) => r_unit(v.append_lines(p, l)),
+        WriteH(p, d) => match v.write(p) {
+            Ok(mut h) => {
+                if let Err(e) = h.write_all(d) {
+                    return Res::Err(format!("Io:{:?}", e.kind()));
+                }
+                if let Err(e) = h.flush() {
+                    return Res::Err(format!("Io:{:?}", e.kind()));
+                }
+                Res::Unit
+            },
+            Err(e) => Res::Err(err_kind(&e)),
+        },
+        AppendH(p, d) => match v.append(p) {
+            Ok(mut h) => {
+                if let Err(e) = h.write_all(d) {
+                    return Res::Err(format!("Io:{:?}", e.kind()));
+                }
+                if let Err(e) = h.flush() {
+                    return Res::Err(format!("Io:{:?}", e.kind()));
+                }
+                Res::Unit
+            },
+            Err(e) => Res::Err(err_kind(&e)),
+        },
+        ReadAll(p) => match v.read_all(p) {
+            Ok(s) => Res::Text(s),
+            Err(e) => Res::Err(err_kind(&e)),
+        },
+        ReadLines(p) => match v.read_lines(p) {
+            Ok(s) => Res::Lines(s),
+            Err(e) => Res::Err(err_kind(&e)),
+        },
+        ReadBytes(p) => match v.read(p) {
+            Ok(mut h) => {
+                let mut b = vec![];
+                match h.read_to_end(&mut b) {
+                    Ok(_) => Res::Bytes(b),
+                    Err(e) => Res::Err(format!("Io:{:?}", e.kind())),
+                }
+            },
+            Err(e) => Res::Err(err_kind(&e)),
+        },
+        Remove(p) => r_unit(v.remove(p)),
+        RemoveAll(p) => r_unit(v.remove_all(p)),
+        MoveP(a, b) => r_unit(v.move_p(a, b)),
+        Copy(a, b) => r_unit(v.copy(a, b)),
+        CopyB(a, b, m, f) => match v.copy_b(a, b) {
+            Ok(mut c) => {
+                c = match m {
+                    CopyMode::None => c,
+                    CopyMode::All(x) => c.chmod_all(*x),
+                    CopyMode::Dirs(x) => c.chmod_dirs(*x),
+                    CopyMode::Files(x) => c.chmod_files(*x),
+                };
+                if *f {
+                    c = c.follow(true);
+                }
+                r_unit(c.exec())
+            },
+            Err(e) => Res::Err(err_kind(&e)),
+        },
+        Symlink(l, t) => r_path(v.symlink(l, t)),
+        Readlink(p) => r_path(v.readlink(p)),
+        ReadlinkAbs(p) => r_path(v.readlink_abs(p)),
+        Chmod(p, m) => r_unit(v.chmod(p, *m)),
+        ChmodB(p, o) => match v.chmod_b(p) {
+            Ok(mut c) => {
+                if let Some(x) = o.all {
+                    c = c.all(x);
+                }
+                if let Some(x) = o.dirs {
+                    c = c.dirs(x);
+                }
+                if let Some(x) = o.files {
+                    c = c.files(x);
+                }
+                if let Some(x) = &o.sym {
+                    c = c.sym(x);
+                }
+                match o.recurse {
+                    Some(true) => c = c.recurse(),
+                    Some(false) => c = c.no_recurse(),
+                    None => {},
+                }
+                if o.follow {
+                    c = c.follow();
+                }
+                r_unit(c.exec())
+            },
+            Err(e) => Res::Err(err_kind(&e)),
+        },
+        Chown(p, u, g) => r_unit(v.chown(p, *u, *g)),
+        ChownB(p, o) => match v.chown_b(p) {
+            Ok(mut c) => {
+                if let Some(x) = o.uid {
+                    c = c.uid(x);
+                }
+                if let Some(x) = o.gid {
+                    c = c.gid(x);
+                }
+                if let Some(x) = o.recurse {
+                    c = c.recurse(x);
+                }
+                if o.follow {
+                    c = c.follow();
+                }
+                r_unit(c.exec())
+            },
+            Err(e) => Res::Err(err_kind(&e)),
+        },
+        SetCwd(p) => r_path(v.set_cwd(p)),
+        Cwd => r_path(v.cwd()),
+        Root => Res::Path(ps(&v.root())),
+        Abs(p) => r_path(v.abs(p)),
+        Exists(p) => Res::Bool(v.exists(p)),
+        IsDir(p) => Res::Bool(v.is_dir(p)),
+        IsFile(p) => Res::Bool(v.is_file(p)),
+        IsSymlink(p) => Res::Bool(v.is_symlink(p)),
+        IsSymlinkDir(p) => Res::Bool(v.is_symlink_dir(p)),
+        IsSymlinkFile(p) => Res::Bool(v.is_symlink_file(p)),
+        IsExec(p) => Res::Bool(v.is_exec(p)),
+        IsReadonly(p) => Res::Bool(v.is_readonly(p)),
+        Mode(p) => match v.mode(p) {
+            Ok(m) => Res::Num(m),
+            Err(e) => Res::Err(err_kind(&e)),
+        },
+        Owner(p) => match v.owner(p) {
+            Ok((u, g)) => Res::Pair(u, g),
+            Err(e) => Res::Err(err_kind(&e)),
+        },
+        Uid(p) => match v.uid(p) {
+            Ok(m) => Res::Num(m),
+            Err(e) => Res::Err(err_kind(&e)),
+        },
+        Gid(p) => match v.gid(p) {
+            Ok(m) => Res::Num(m),
+            Err(e) => Res::Err(err_kind(&e)),
+        },
+        Entry(p) => match v.entry(p) {
+            Ok(e) => Res::Entry(entry_view(&e)),
+            Err(e) => Res::Err(err_kind(&e)),
+        },
+        Paths(p) => r_paths(v.paths(p)),
+        Dirs(p) => r_paths(v.dirs(p)),
+        Files(p) => r_paths(v.files(p)),
+        AllPaths(p) => r_paths(v.all_paths(p)),
+        AllDirs(p) => r_paths(v.all_dirs(p)),
+        AllFiles(p) => r_paths(v.all_files(p)),
+        Entries(p) => match v.entries(p) {
+            Ok(es) => {
+                let mut out = vec![];
+                let mut n = 0;
+                for e in es {
+                    n += 1;
+                    if n > 10_000 {
+                        return Res::Err("harness:too-many-items".into());
+                    }
+                    match e {
+                        Ok(e) => out.push(entry_view(&e)),
+                        Err(e) => return Res::Err(err_kind(&e)),
+                    }
+                }
+                out.sort();
+                Res::Items(out)
+            },
+            Err(e) => Res::Err(err_kind(&e)),
+        },
+    }
+}
+
+// ---------------------------------------------------------------------------------------------
+// Normal-form tree (what the model holds and what observers produce)
+// ---------------------------------------------------------------------------------------------
+#[derive(Clone, Debug, PartialEq, Eq, Hash, PartialOrd, Ord)]
+pub enum NKind {
+    File(Vec<u8>),
+    Dir,
+    Link { target: String, dir: bool },
+}
+#[derive(Clone, Debug, PartialEq, Eq, Hash, PartialOrd, Ord)]
+pub struct NNode {
+    pub kind: NKind,
+    pub mode: u32,
+    pub uid: u32,
+    pub gid: u32,
+}
+#[derive(Clone, Debug, PartialEq, Eq, Hash, PartialOrd, Ord)]
+pub struct NTree {
+    pub cwd: String,
+    pub nodes: BTreeMap<String, NNode>,
+}
+pub fn parent_of(p: &str) -> Option<String> {
+    if p == "/" {
+        return None;
+    }
+    match p.rfind('/') {
+        Some(0) => Some("/".to_string()),
+        Some(i) => Some(p[..i].to_string()),
+        None => None,
+    }
+}
+pub fn base_of(p: &str) -> &str {
+    match p.rfind('/') {
+        Some(i) => &p[i + 1..],
+        None => p,
+    }
+}
+pub fn join(d: &str, n: &str) -> String {
+    if d == "/" {
+        format!("/{}", n)
+    } else {
+        format!("{}/{}", d, n)
+    }
+}
+pub fn is_under(p: &str, anc: &str) -> bool {
+    // strictly below
+    if anc == "/" {
+        return p != "/";
+    }
+    p.len() > anc.len() && p.starts_with(anc) && p.as_bytes()[anc.len()] == b'/'
+}
+impl NTree {
+    pub fn fresh() -> NTree {
+        let mut nodes = BTreeMap::new();
+        nodes.insert("/".to_string(), NNode { kind: NKind::Dir, mode: 0o40755, uid: 1000, gid: 1000 });
+        NTree { cwd: "/".into(), nodes }
+    }
+    pub fn children(&self, d: &str) -> Vec<String> {
+        self.nodes.keys().filter(|k| parent_of(k).as_deref() == Some(d)).cloned().collect()
+    }
+    pub fn subtree(&self, p: &str) -> Vec<String> {
+        self.nodes.keys().filter(|k| *k == p || is_under(k, p)).cloned().collect()
+    }
+    pub fn is_real_dir(&self, p: &str) -> bool {
+        matches!(self.nodes.get(p), Some(NNode { kind: NKind::Dir, .. }))
+    }
+    /// argument class of a clean absolute path in this tree
+    pub fn class_of(&self, p: &str) -> &'static str {
+        if p == "/" {
+            return "root";
+        }
+        match self.nodes.get(p) {
+            Some(n) => match &n.kind {
+                NKind::File(_) => "file",
+                NKind::Dir => {
+                    if self.children(p).is_empty() {
+                        "dir-empty"
+                    } else {
+                        "dir-nonempty"
+                    }
+                },
+                NKind::Link { target, dir } => match self.nodes.get(target) {
+                    None => "link→dangling",
+                    Some(_) if *dir => "link→dir",
+                    Some(_) => "link→file",
+                },
+            },
+            None => match parent_of(p).and_then(|d| self.nodes.get(&d).cloned()) {
+                None => "absent/parent-missing",
+                Some(n) => match n.kind {
+                    NKind::Dir => "absent",
+                    NKind::File(_) => "absent/parent-file",
+                    NKind::Link { .. } => "absent/parent-link",
+                },
+            },
+        }
+    }
+    pub fn to_json(&self) -> J {
+        J::obj(vec![
+            ("cwd", J::s(&self.cwd)),
+            (
+                "nodes",
+                J::Arr(
+                    self.nodes
+                        .iter()
+                        .map(|(k, n)| {
+                            J::s(format!(
+                                "{} {} mode={:o} owner={}:{}",
+                                k,
+                                match &n.kind {
+                                    NKind::File(d) => format!("file({:?})", String::from_utf8_lossy(&d[..d.len().min(40)])),
+                                    NKind::Dir => "dir".to_string(),
+                                    NKind::Link { target, dir } => format!("link→{}({})", target, if *dir { "dir" } else { "file" }),
+                                },
+                                n.mode,
+                                n.uid,
+                                n.gid
+                            ))
+                        })
+                        .collect(),
+                ),
+            ),
+        ])
+    }
+    pub fn diff(&self, other: &NTree) -> String {
+        let mut out = vec![];
+        if self.cwd != other.cwd {
+            out.push(format!("cwd {} vs {}", self.cwd, other.cwd));
+        }
+        let keys: BTreeSet<&String> = self.nodes.keys().chain(other.nodes.keys()).collect();
+        for k in keys {
+            match (self.nodes.get(k), other.nodes.get(k)) {
+                (Some(a), Some(b)) if a == b => {},
+                (Some(a), Some(b)) => out.push(format!("{}: {:?} vs {:?}", k, short_node(a), short_node(b))),
+                (Some(a), None) => out.push(format!("{}: {:?} vs <absent>", k, short_node(a))),
+                (None, Some(b)) => out.push(format!("{}: <absent> vs {:?}", k, short_node(b))),
+                _ => {},
+            }
+            if out.len() > 6 {
+                break;
+            }
+        }
+        out.join("; ")
+    }
+}
+fn short_node(n: &NNode) -> String {
+    let k = match &n.kind {
+        NKind::File(d) => format!("file[{}]{:?}", d.len(), String::from_utf8_lossy(&d[..d.len().min(16)])),
+        NKind::Dir => "dir".into(),
+        NKind::Link { target, dir } => format!("link→{}({})", target, if *dir { "d" } else { "f" }),
+    };
+    format!("{} {:o} {}:{}", k, n.mode, n.uid, n.gid)
+}
+
+// ---------------------------------------------------------------------------------------------
+// Memfs observers: normal form + C03 invariant walker over the hook snapshot
+// ---------------------------------------------------------------------------------------------
+pub use rivia::sys::verif::Snapshot;
+
+pub fn memfs_ntree(s: &Snapshot) -> NTree {
+    let mut nodes = BTreeMap::new();
+    let files: BTreeMap<String, &Vec<u8>> = s.files.iter().map(|f| (ps(&f.0), &f.1)).collect();
+    for e in &s.entries {
+        let key = ps(&e.key);
+        let kind = if e.link {
+            NKind::Link { target: ps(&e.alt), dir: e.dir }
+        } else if e.file {
+            NKind::File(files.get(&key).map(|d| (*d).clone()).unwrap_or_default())
+        } else {
+            NKind::Dir
+        };
+        nodes.insert(key, NNode { kind, mode: e.mode, uid: e.uid, gid: e.gid });
+    }
+    NTree { cwd: ps(&s.cwd), nodes }
+}
+
+/// The clauses of C03, exactly. Returns (invariant id, detail).
+pub fn check_invariants(s: &Snapshot) -> Vec<(&'static str, String)> {
+    let mut v = vec![];
+    let keys: BTreeMap<String, &rivia::sys::verif::EntrySnapshot> = s.entries.iter().map(|e| (ps(&e.key), e)).collect();
+    if s.entries.len() != keys.len() {
+        v.push(("I5-duplicate-key", "duplicate keys".to_string()));
+    }
+    for (k, e) in &keys {
+        if k != "/" {
+            match parent_of(k) {
+                None => v.push(("I1-key-not-absolute", k.clone())),
+                Some(d) => match keys.get(&d) {
+                    None => v.push(("I1-parent-missing", format!("{} has no parent entry {}", k, d))),
+                    Some(pe) => {
+                        if !pe.dir || pe.link {
+                            v.push(("I1-parent-not-real-dir", format!("{} parent {} dir={} link={}", k, d, pe.dir, pe.link)));
+                        }
+                        let listed = pe.children.as_ref().map(|c| c.iter().any(|n| n == base_of(k))).unwrap_or(false);
+                        if !listed {
+                            v.push(("I1-parent-does-not-list", format!("{} is not listed by {}", k, d)));
+                        }
+                    },
+                },
+            }
+        }
+        if let Some(ch) = &e.children {
+            for n in ch {
+                let c = join(k, n);
+                if !keys.contains_key(&c) {
+                    v.push(("I2-listed-child-missing", format!("{} lists {} which does not exist", k, n)));
+                }
+            }
+        }
+        if ps(&e.path) != *k {
+            v.push(("I3-entry-path-differs-from-key", format!("key {} entry.path {}", k, ps(&e.path))));
+        }
+    }
+    let fkeys: BTreeSet<String> = s.files.iter().map(|f| ps(&f.0)).collect();
+    let want: BTreeSet<String> = keys.iter().filter(|(_, e)| e.file && !e.link).map(|(k, _)| k.clone()).collect();
+    for k in fkeys.difference(&want) {
+        v.push(("I4-dangling-data", format!("data stored for {} which is not a regular file entry", k)));
+    }
+    for k in want.difference(&fkeys) {
+        v.push(("I4-file-without-data", format!("regular file {} has no data record", k)));
+    }
+    // reachability from the root through child sets
+    let mut seen: BTreeSet<String> = BTreeSet::new();
+    let mut stack = vec!["/".to_string()];
+    while let Some(k) = stack.pop() {
+        if !seen.insert(k.clone()) {
+            continue;
+        }
+        if let Some(e) = keys.get(&k) {
+            if let Some(ch) = &e.children {
+                for n in ch {
+                    let c = join(&k, n);
+                    if keys.contains_key(&c) {
+                        stack.push(c);
+                    }
+                }
+            }
+        }
+    }
+    for k in keys.keys() {
+        if !seen.contains(k) {
+            v.push(("I5-unreachable-from-root", k.clone()));
+        }
+    }
+    match keys.get("/") {
+        Some(r) if r.dir && !r.link => {},
+        Some(_) => v.push(("I6-root-not-a-directory", "/".into())),
+        None => v.push(("I6-root-missing", "/".into())),
+    }
+    if !ps(&s.cwd).starts_with('/') {
+        v.push(("I6-cwd-not-absolute", ps(&s.cwd)));
+    }
+    if ps(&s.root) != "/" {
+        v.push(("I6-root-path-changed", ps(&s.root)));
+    }
+    if s.poisoned {
+        v.push(("I7-lock-poisoned", "poisoned".into()));
+    }
+    v
+}
+
+/// Observation through the public API only (what a user can see) over a path universe
+pub fn api_observe<V: VirtualFileSystem>(v: &V, universe: &[String]) -> Vec<(String, String)> {
+    let mut out = vec![];
+    out.push(("<cwd>".to_string(), format!("{:?}", exec(v, &Op::Cwd))));
+    for p in universe {
+        let q = |op: Op| exec(v, &op);
+        out.push((
+            p.clone(),
+            format!(
+                "exists={:?} is_dir={:?} is_file={:?} is_symlink={:?} sd={:?} sf={:?} mode={:?} owner={:?} bytes={:?} readlink={:?} readlink_abs={:?}",
+                q(Op::Exists(p.clone())),
+                q(Op::IsDir(p.clone())),
+                q(Op::IsFile(p.clone())),
+                q(Op::IsSymlink(p.clone())),
+                q(Op::IsSymlinkDir(p.clone())),
+                q(Op::IsSymlinkFile(p.clone())),
+                q(Op::Mode(p.clone())),
+                q(Op::Owner(p.clone())),
+                q(Op::ReadBytes(p.clone())),
+                q(Op::Readlink(p.clone())),
+                q(Op::ReadlinkAbs(p.clone())),
+            ),
+        ));
+    }
+    out
+}
